@@ -30,7 +30,9 @@ type Part struct {
 	Cases            int
 	Chunk            int // cases per child (0: spread over the cores)
 	Env              []string
-	KnownFindingOnly bool // outcome never decides the exit code (reproducer of a recorded finding)
+	KnownFindingOnly bool   // outcome never decides the exit code (reproducer of a recorded finding)
+	Compare          string // parts with the same non-empty group must produce identical per-case transcripts
+	Label            string // distinguishes parts of a compare group
 }
 
 // Prop describes one property's check.
